@@ -1040,6 +1040,9 @@ impl<K: AsRef<Key>> ServerSequence<K> {
         Target: Composer,
     {
         let variables = Variables::new(now, fudge, TsigRcode::NOERROR, None);
+        // A message that has no room for the record never goes out: the
+        // sequence must then stay where it was.
+        let saved = (self.first, self.context.context.clone());
         let mac = if self.first {
             self.first = false;
             self.context
@@ -1055,7 +1058,11 @@ impl<K: AsRef<Key>> ServerSequence<K> {
         // the wire, i.e., truncated to the signing length.
         let mac = &mac.as_ref()[..self.key().signing_len()];
         self.context.apply_signature(mac);
-        self.key().complete_message(message, &variables, mac)
+        let res = self.key().complete_message(message, &variables, mac);
+        if res.is_err() {
+            (self.first, self.context.context) = saved;
+        }
+        res
     }
 
     /// Returns a reference to the transaction’s key.
